@@ -6,7 +6,10 @@ RULE = ("MC: TLC explores the Drop machine (address guard, routine cache, conntr
         "cache content and checks 'allow => Authentic' in every state. V: every attack vector of Firewall.tla (peer x owner of "
         "the remote address x remote class x node-side class x direction x rule set x how the tuple got tracked: real flow of "
         "the owner in either direction / injected conntrack entry / routine-cache entry) is executed on a real Firewall with "
-        "real HostInfo.buildNetworks; distinct = distinct vectors")
+        "real HostInfo.buildNetworks; distinct = distinct vectors. Call sites: AddrE2E.tla enumerates inner packets (direction x "
+        "sending peer x 9 remote address classes x 5 node-side classes x with/without a prior flow of the address' owner) for a "
+        "complete node T with allow-everything rules; in: sent by real peers inside their own tunnels (own outbound firewall "
+        "bypassed), T's tun output observed; out: handed to T's tun, the data datagrams T emits and their destinations observed")
 ASSUMPTIONS = [
     "only the implication of the statement is judged: an allowed packet must carry authentic addresses; refusing an authentic "
     "packet is not a C17 matter (the code refuses a certified peer address outside my networks even when it lies inside the "
@@ -31,6 +34,19 @@ def run(ctx):
         ctx.require_actions('universe', 'prior-flow-tracked', 'conntrack-injected', 'cache-injected', 'authentic-allowed',
                             'authentic-allowed-by-tracked-flow', 'spoof-refused', 'spoof-refused-despite-tracked-flow',
                             'spoofed-remote-refused', 'spoofed-local-refused')
+    # call-site level: the same statement on complete nodes (spec/AddrE2E.tla)
+    n2 = ctx.tlc_vectors('AddrE2E', 'Vec_AddrE2E.cfg', out='vectors_e2e.ndjson')
+    ctx.extra['vectors_e2e'] = n2
+    res2 = ctx.gotest('e2e', 'TestVerif_C17E2E', tags='verif e2e_testing', also=('net',), timeout=600 if ctx.quick else 1200, name='e2e')
+    ctx.take_mismatches(res2)
+    ctx.traces += n2
+    drifts = {k: v for k, v in (res2.get('extra') or {}).items() if k.startswith('drift:')}
+    ctx.extra['e2e_authentic_but_refused'] = sorted(drifts)[:40]
+    if not ctx.violations:
+        ctx.require_actions('dir:in', 'dir:out', 'in:delivered', 'in:spoof-refused', 'in:spoof-refused-after-owner-flow', 'prior-flow-delivered',
+                            'out:sent', 'out:spoof-refused', 'r:M-unsafe', 'r:D-out', 'l:unsafe')
+        if (res2.get('actions') or {}).get('no-tunnel:M') or (res2.get('actions') or {}).get('no-tunnel:D'):
+            raise MachineryError('the tunnels of the whole-node scenario could not be established')
     dis = (res.get('extra') or {}).get('machine_disagreements', 0)
     ctx.extra['machine_disagreements'] = dis
     if dis and not ctx.violations:
@@ -47,5 +63,6 @@ META = {
             'class on a real Firewall: spoofed remote and node-side addresses, multi-address peers, addresses outside my networks, '
             'unsafe networks, tuples tracked by another peer, injected conntrack and routine-cache entries.',
     'design_ref': '3.7 C17',
-    'note': 'Object level (Firewall.Drop); the tun-output view of whole nodes is not part of this check.',
+    'note': 'Object level (Firewall.Drop) for every vector of Firewall.tla; at the call sites (outside.go / inside.go on complete '
+            'nodes) for the 400-odd vectors of AddrE2E.tla. Only the implication allowed => authentic is judged.',
 }
